@@ -62,12 +62,26 @@ func val(name string) *big.Int {
 	return new(big.Int)
 }
 
-func U8(name string) uint8   { return uint8(val(fresh(name)).Uint64()) }
-func U16(name string) uint16 { return uint16(val(fresh(name)).Uint64()) }
-func U32(name string) uint32 { return uint32(val(fresh(name)).Uint64()) }
-func U64(name string) uint64 { return val(fresh(name)).Uint64() }
-func Int(name string) int    { return int(val(fresh(name)).Uint64()) }
-func Bool(name string) bool  { return val(fresh(name)).Sign() != 0 }
+func scalar(name string) uint64 {
+	n := fresh(name)
+	if concreteInputs {
+		return 0xa5a5a5a5a5a5a5a5
+	}
+	return val(n).Uint64()
+}
+
+func U8(name string) uint8   { return uint8(scalar(name)) }
+func U16(name string) uint16 { return uint16(scalar(name)) }
+func U32(name string) uint32 { return uint32(scalar(name)) }
+func U64(name string) uint64 { return scalar(name) }
+func Int(name string) int    { return int(scalar(name)) }
+func Bool(name string) bool {
+	n := fresh(name)
+	if concreteInputs {
+		return false
+	}
+	return val(n).Sign() != 0
+}
 
 func IntRange(name string, lo, hi int) int {
 	n := fresh(name)
@@ -87,7 +101,11 @@ func Bytes(name string, n int) []byte {
 	nm := fresh(name)
 	b := make([]byte, n)
 	for i := range b {
-		b[i] = byte(val(fmt.Sprintf("%s[%d]", nm, i)).Uint64())
+		if concreteInputs {
+			b[i] = 0xa5
+		} else {
+			b[i] = byte(val(fmt.Sprintf("%s[%d]", nm, i)).Uint64())
+		}
 	}
 	return b
 }
@@ -126,6 +144,13 @@ func AllocLimit(n int)         {}
 func MonitorShared(on bool)    {}
 func Ownership(on bool)        {}
 func Symbolic() bool           { return false }
+
+// ConcreteInputs(true) makes the scalar and byte inputs that follow fixed constants (0xa5 in
+// every byte, false for Bool) instead of symbolic values, until ConcreteInputs(false).
+func ConcreteInputs(on bool) { concreteInputs = on }
+
+var concreteInputs bool
+
 
 // Thorough reports whether the thorough tier is running (harnesses widen their bounds).
 func Thorough() bool { return cur != nil && cur.Values["__tier"] == "1" }
@@ -327,6 +352,7 @@ func bufBytes(v reflect.Value) []byte {
 // RunCase executes one harness natively under a replay case.
 func RunCase(c *Case, harnesses map[string]func()) (res Result) {
 	cur = c
+	concreteInputs = false
 	seq = map[string]int{}
 	observes = nil
 	res.Harness = c.Harness
